@@ -87,7 +87,7 @@ func TestC15(t *testing.T) {
 	}
 	bound := 1
 	k := 2
-	deadline := ev.Deadline(260, 1500)
+	deadline := ev.Deadline(330, 1500)
 	leaves := []int{LIncA, LTrvAP, LPermP}
 	if ev.Thorough() {
 		leaves = []int{LIncA, LIncB, LTrvAP, LTrvAB, LPermQ, LPermP}
@@ -114,7 +114,7 @@ func TestC15(t *testing.T) {
 	}
 	cov := struct {
 
-		scenarios, heavy, bound2, execs, trans, states, faultRuns, hangRuns, maxThreads, maxCalls, leaks, cancelledRuns int
+		scenarios, heavy, bound2, execs, trans, states, faultRuns, hangRuns, maxThreads, maxCalls, leaks, cancelledRuns, againRuns, pageRuns int
 		complete                                                                                         bool
 		outcomes                                                                                         map[string]int
 	}{complete: true, outcomes: map[string]int{}}
@@ -209,8 +209,51 @@ func TestC15(t *testing.T) {
 		if !e.Complete {
 			cov.complete = false
 		}
+		// (v) a later check after a cancelled one: whatever the cancelled check leaves behind (pooled objects,
+		// stragglers) must not keep the next check - fresh context, nobody cancels it - from returning
+		// (scenarios with short executions: the long ones repeat the same operators on longer chains)
+		if !sc.Bound2 && !heavy && (ev.Thorough() || (light/nshards)%6 == 0) { // quick: every sixth of them
+			// (both canonical picks among the ready cases of a select: after the cancel, "result is there" and
+			// "context is done" are ready together, and Go picks at random)
+			for _, so := range []int{0, 1} {
+				ae := &vsched.Explore{Bound: bound, Deadline: deadline, Shard: eshard, NShards: enshards, SelectOrder: so}
+				ae.Run(func(c vsched.Config) *vsched.Execution {
+					last = w.RunCheck(rows, q, c, RunOpt{Canceller: true, Again: true})
+					return last.X
+				}, func(x *vsched.Execution) bool {
+					cov.againRuns++
+					oracle(sc, "cancelled-then-again", last, map[string]any{"select_order": so})
+					if x.Outcome == "ok" && last.Res2.Err != nil {
+						rep := sc.Replay()
+						rep["mode"], rep["choices"], rep["global_depth"], rep["select_order"] = "cancelled-then-again", x.Choices, gdepth, so
+						run.Violation("later-check-fails-after-cancelled-check", fmt.Sprintf("a check issued after a cancelled check returned fails although nobody cancelled it: %v in %s", last.Res2.Err, sc), rep)
+					}
+					return true
+				})
+				cov.execs += ae.Execs
+				cov.trans += ae.Transitions
+				if !ae.Complete {
+					cov.complete = false
+				}
+			}
+		}
 		if sc.Bound2 || (heavy && shard != 0) {
 			continue
+		}
+		// (vi) listings paged one row at a time: every traverse over two parents needs several pages; the number
+		// of storage operations stays bounded (step horizon) also then, and with a failing call at every position
+		if sc.Cfg.Expr.usesTraverse() {
+			pb := w.RunCheck(rows, q, vsched.Config{}, RunOpt{PageSize: 1})
+			cov.pageRuns++
+			oracle(sc, "page-size-1", pb, map[string]any{"page_size": 1})
+			if pb.X.Outcome == "ok" {
+				for pos := 1; pos <= pb.Calls; pos++ {
+					plan := memstore.FaultPlan{At: pos}
+					last = w.RunCheck(rows, q, vsched.Config{}, RunOpt{Fault: plan, PageSize: 1})
+					cov.pageRuns++
+					oracle(sc, "page-size-1-fault", last, map[string]any{"fail_call": pos, "page_size": 1})
+				}
+			}
 		}
 		if cov.scenarios <= 2 && shard < 2 {
 			run.Sample(map[string]any{"scenario": sc.Replay(), "explored": fmt.Sprintf("%d executions, bound %d, canceller thread", e.Execs, b)})
@@ -265,6 +308,8 @@ func TestC15(t *testing.T) {
 		"fault_runs":                    cov.faultRuns,
 		"cancel_runs_storage_completing": cov.hangRuns,
 		"cancelled_runs":                cov.cancelledRuns,
+		"cancelled_then_again_runs":     cov.againRuns,
+		"page_size_1_runs":              cov.pageRuns,
 		"max_threads":                   cov.maxThreads,
 		"max_store_calls":               cov.maxCalls,
 		"deviation_bound":               bound,
